@@ -4,7 +4,8 @@ Purely syntactic (DESIGN.md 2.2), so it reacts to exactly the edits C02's measur
 
   with <e>            e ends in `_lock` / is the closure name `lock`      -> withLock l [body]
   shared attr / closure var   Load                                         -> read x
-                              Store / Del / subscript-store / mutator call -> write x
+                              Store / Del / subscript-store / mutator call -> write x   (`self._file.write_value(…)` is
+                              the store into the shared mmap file: write file)
                               AugAssign target                             -> rmw x
   x.copy() / copy.copy(x)                                                  -> copy x
   for … in <shared | alias of shared>[.items()/.values()/.keys()]          -> iterate x [body]
@@ -30,7 +31,8 @@ SHARED = {'_value': 'value', '_exemplar': 'exemplar', '_timestamp': 'timestamp',
 CLOSURE_SHARED = {'files', 'values', 'pid'}          # free variables of MultiProcessValue's closure
 USER_CALLS = {'collect': 'collect', 'describe': 'describe', 'desc_func': 'descFunc', '_samples': 'samples',
               '_child_samples': 'childSamples'}
-MUTATORS = {'append', 'clear', 'pop', 'add', 'update', 'remove', 'setdefault', 'popitem', 'extend', 'insert', 'discard'}
+MUTATORS = {'append', 'clear', 'pop', 'add', 'update', 'remove', 'setdefault', 'popitem', 'extend', 'insert', 'discard',
+            'write_value'}      # MmapedDict.write_value: the store into the shared mmap file
 VIEWS = {'items', 'values', 'keys'}
 
 # (file index, class, enclosing factory function or None, lock id of `self._lock` / `lock` in that class)
